@@ -370,7 +370,7 @@ def _chk_subdivide(args, res, old):
         return "%d bins, expected %d" % (len(res), want)
 
 
-contract("skgenome/gary.py::GenomicArray.subdivide", params=dict(a=ObjT("GenomicArray"), avg=Int, mn=Int), bounded=True,
+contract("skgenome/gary.py::GenomicArray.subdivide#rt", params=dict(a=ObjT("GenomicArray"), avg=Int, mn=Int), bounded=True,
          gen=_gen_subdivide, call=lambda fn, a: a["a"].subdivide(a["avg"], a["mn"]), props=("C06", "C12"),
          checks=[("equal_split_of_merged_regions", _chk_subdivide)])
 
